@@ -447,6 +447,12 @@ func oracle(r *vx.Run, h History, nm names, reads []read) bool {
 		case "list-transactions-by-address", "list-accounts-by-address":
 			oracleListing(r, h, rd, ls)
 			continue
+		case "list-accounts-pit", "list-accounts-pit-by-address", "list-accounts-pit-by-metadata":
+			oracleAccountsPit(r, h, nm, rd, ls, ms)
+			continue
+		case "list-transactions-by-metadata", "list-accounts-by-metadata":
+			oracleMetaListing(r, h, rd, ls)
+			continue
 		default:
 			continue
 		}
@@ -686,6 +692,259 @@ func oracleListing(r *vx.Run, h History, rd read, ls []LogIn) {
 	if rd.Kind == "list-transactions-by-address" && rd.Count != len(exp) {
 		r.FailSized("replay-mismatch:count-transactions-by-address", in, fmt.Sprintf("ledger %s, $match %s ~ %q: CountTransactions = %d, replay %d", rd.Ledger, rd.Key, rd.Pattern, rd.Count, len(exp)), len(h.Logs))
 		return
+	}
+	r.Count("oracle-agree:" + rd.Kind)
+}
+
+// ---- listings filtered by metadata[k] = v, now and as of a point in time ------------------------------------------------------------
+func sameMeta(a, b map[string]string) bool {
+	if len(a) != len(b) {
+		return false
+	}
+	for k, v := range a {
+		if w, ok := b[k]; !ok || w != v {
+			return false
+		}
+	}
+	return true
+}
+
+func oracleMetaListing(r *vx.Run, h History, rd read, ls []LogIn) {
+	if rd.Pit != nil && !allUTC(ls) {
+		// which transactions exist "as of" a date is off by the dropped offsets (F-C04c, reported by the single-row reads)
+		r.Count("listing-by-metadata:in-known-class:zone-offset-dropped")
+		return
+	}
+	exp := map[string]map[string]string{}
+	if rd.Kind == "list-accounts-by-metadata" {
+		known := map[string]bool{}
+		for _, e := range ls {
+			for _, a := range logAccounts(e) {
+				known[a] = true
+			}
+		}
+		for a := range known {
+			if m, ok := replayAccountMeta(ls, a, nil); ok && m[rd.Key] == rd.Value {
+				if _, has := m[rd.Key]; has {
+					exp[a] = m
+				}
+			}
+		}
+	} else {
+		seen := map[int64]bool{}
+		for _, e := range ls {
+			if e.Tx == nil || seen[e.Tx.ID] {
+				continue
+			}
+			seen[e.Tx.ID] = true
+			if st := replayTx(ls, e.Tx.ID, rd.Pit); st != nil {
+				if v, has := st.meta[rd.Key]; has && v == rd.Value {
+					exp[fmt.Sprint(e.Tx.ID)] = st.meta
+				}
+			}
+		}
+	}
+	got := append([]string(nil), rd.IDs...)
+	sort.Strings(got)
+	want := sortedKeys(exp)
+	in := map[string]any{"history": h, "metaFilter": [2]string{rd.Key, rd.Value}, "ledger": rd.Ledger, "pit": rd.Pit}
+	where := "now"
+	if rd.Pit != nil {
+		where = fmt.Sprintf("as of %d", *rd.Pit)
+	}
+	what := fmt.Sprintf("ledger %s, $match metadata[%s] = %q %s", rd.Ledger, rd.Key, rd.Value, where)
+	if strings.Join(got, ",") != strings.Join(want, ",") {
+		r.FailSized("replay-mismatch:"+rd.Kind, in, fmt.Sprintf("%s: the store lists [%s], the replayed log gives [%s]", what, strings.Join(got, ","), strings.Join(want, ",")), len(h.Logs))
+		return
+	}
+	for i, id := range rd.IDs {
+		if !sameMeta(rd.RowMeta[i], exp[id]) {
+			r.FailSized("replay-mismatch:"+rd.Kind+":row-metadata", in, fmt.Sprintf("%s: row %s carries metadata %v, the replayed log gives %v", what, id, rd.RowMeta[i], exp[id]), len(h.Logs))
+			return
+		}
+	}
+	if rd.Count != len(want) {
+		r.FailSized("replay-mismatch:count-"+rd.Kind[len("list-"):], in, fmt.Sprintf("%s: count = %d, replay %d", what, rd.Count, len(want)), len(h.Logs))
+		return
+	}
+	r.Count("oracle-agree:" + rd.Kind)
+}
+
+// ---- the accounts listing as of a point in time ----------------------------------------------------------------------------------------
+// the revisions the schema writes for every account (dates only): at creation, at every upsert whose metadata is not already
+// contained, at every delete. This is the history CLASS of F-C04j, not the oracle: the listing returns one row per revision.
+func revisionDates(ls []LogIn) (revs map[string][]int64, ins map[string]int64) {
+	revs, ins = map[string][]int64{}, map[string]int64{}
+	meta := map[string]map[string]string{}
+	upsert := func(a string, m map[string]string, date int64) {
+		cur, ok := meta[a]
+		if !ok {
+			meta[a] = map[string]string{}
+			for k, v := range m {
+				meta[a][k] = v
+			}
+			ins[a] = date
+			revs[a] = append(revs[a], date)
+			return
+		}
+		contained := true
+		for k, v := range m {
+			if w, has := cur[k]; !has || w != v {
+				contained = false
+			}
+		}
+		if !contained {
+			for k, v := range m {
+				cur[k] = v
+			}
+			revs[a] = append(revs[a], date)
+		}
+	}
+	for _, e := range ls {
+		if e.Tx != nil {
+			for _, p := range e.Tx.Postings {
+				upsert(p.Src, e.AccMeta[p.Src], e.Date)
+				upsert(p.Dst, e.AccMeta[p.Dst], e.Date)
+			}
+		}
+		if e.Kind == "new" {
+			for _, a := range jsonbKeys(e.AccMeta) {
+				upsert(a, e.AccMeta[a], e.Tx.TS)
+			}
+		}
+		if e.Kind == "set" && e.TxTarget == nil {
+			upsert(e.Account, e.Meta, e.Date)
+		}
+		if e.Kind == "del" && e.TxTarget == nil {
+			if cur, ok := meta[e.Account]; ok {
+				delete(cur, e.Key)
+				revs[e.Account] = append(revs[e.Account], e.Date)
+			}
+		}
+	}
+	return
+}
+
+// F-C04j: some account visible at pit has two or more metadata revisions dated before pit
+func severalRevisionsBefore(ls []LogIn, pit int64) bool {
+	revs, ins := revisionDates(ls)
+	for a, ds := range revs {
+		if ins[a] > pit {
+			continue
+		}
+		n := 0
+		for _, d := range ds {
+			if d < pit {
+				n++
+			}
+		}
+		if n >= 2 {
+			return true
+		}
+	}
+	return false
+}
+
+func oracleAccountsPit(r *vx.Run, h History, nm names, rd read, ls []LogIn, ms []rmove) {
+	pit := *rd.Pit
+	// outside the classes already reported by the single-row read: F-C04d (an entry dated exactly pit), F-C04h (script metadata
+	// dated by the transaction timestamp)
+	for _, e := range ls {
+		if e.Date == pit {
+			r.Count("accounts-pit-listing:in-known-class:account-metadata-pit-strictly-before")
+			return
+		}
+		if e.Kind == "new" && len(e.AccMeta) > 0 && e.Tx.TS != e.Date {
+			r.Count("accounts-pit-listing:in-known-class:script-account-metadata-dated-by-transaction-timestamp")
+			return
+		}
+	}
+	known := map[string]bool{}
+	for _, e := range ls {
+		for _, a := range logAccounts(e) {
+			known[a] = true
+		}
+	}
+	type row struct {
+		meta map[string]string
+	}
+	exp := map[string]row{}
+	for a := range known {
+		m, ok := replayAccountMeta(ls, a, rd.Pit)
+		if !ok {
+			continue
+		}
+		switch rd.Kind {
+		case "list-accounts-pit-by-address":
+			if !segMatch(rd.Pattern, a) {
+				continue
+			}
+		case "list-accounts-pit-by-metadata":
+			if v, has := m[rd.Key]; !has || v != rd.Value {
+				continue
+			}
+		}
+		exp[a] = row{m}
+	}
+	want := sortedKeys(exp)
+	in := map[string]any{"history": h, "ledger": rd.Ledger, "pit": pit, "accountsListing": rd.Kind, "pattern": rd.Pattern, "metaFilter": [2]string{rd.Key, rd.Value}}
+	what := fmt.Sprintf("ledger %s, accounts as of %d (%s %s%s=%s)", rd.Ledger, pit, rd.Kind, rd.Pattern, rd.Key, rd.Value)
+	fail := func(sig, detail string) {
+		if severalRevisionsBefore(ls, pit) {
+			r.FailSized("known-class:accounts-pit-listing-one-row-per-revision:"+rd.Kind, h, what+": "+detail, len(h.Logs))
+			return
+		}
+		r.FailSized("replay-mismatch:"+rd.Kind+sig, in, what+": "+detail, len(h.Logs))
+	}
+	if strings.Join(rd.IDs, ",") != strings.Join(want, ",") {
+		fail("", fmt.Sprintf("the store lists [%s], the replayed log gives each account known at that instant once: [%s]", strings.Join(rd.IDs, ","), strings.Join(want, ",")))
+		return
+	}
+	if rd.Count != len(want) {
+		fail(":count", fmt.Sprintf("CountAccounts = %d, replay %d", rd.Count, len(want)))
+		return
+	}
+	for i, a := range rd.IDs {
+		if !sameMeta(rd.RowMeta[i], exp[a].meta) {
+			fail(":row-metadata", fmt.Sprintf("row %s carries metadata %v, the replayed log gives %v", a, rd.RowMeta[i], exp[a].meta))
+			return
+		}
+	}
+	if rd.Kind == "list-accounts-pit" && noSelfTransferOnNewAccount(ls) {
+		effOK := allUTC(ls) && noBackdatingBeforeFirst(ls)
+		for i, a := range rd.IDs {
+			for _, eff := range []bool{false, true} {
+				if eff && !effOK {
+					continue
+				}
+				got := rd.RowVols[i]
+				if eff {
+					got = rd.RowEff[i]
+				}
+				expv := map[string][2]string{}
+				for _, m := range ms {
+					t := m.ins
+					if eff {
+						t = m.eff
+					}
+					if m.acct != a || t > pit {
+						continue
+					}
+					in, out, _ := rvol(ms, func(x rmove) bool {
+						tx := x.ins
+						if eff {
+							tx = x.eff
+						}
+						return x.acct == a && x.asset == m.asset && tx <= pit
+					})
+					expv[m.asset] = [2]string{fmt.Sprint(in), fmt.Sprint(out)}
+				}
+				if fmt.Sprint(got) != fmt.Sprint(expv) && !(len(got) == 0 && len(expv) == 0) {
+					fail(":row-volumes", fmt.Sprintf("row %s (effective=%v) carries volumes %v, the replayed log gives %v", a, eff, got, expv))
+					return
+				}
+			}
+		}
 	}
 	r.Count("oracle-agree:" + rd.Kind)
 }
